@@ -4,6 +4,7 @@ import (
 	"net"
 	"net/netip"
 	"runtime"
+	"sort"
 	"sync/atomic"
 	"syscall"
 	"time"
@@ -154,6 +155,34 @@ func (d *driver) startOp(o *object, dir string) (flag *sentinelFlag, done *int32
 	return
 }
 
+// sweepDone reports completions nobody asked for (a timer that expired while
+// another operation was being awaited): the monitor must not keep them in flight
+func (d *driver) sweepDone(except *int32) {
+	ids := make([]int, 0, len(d.objs))
+	for id := range d.objs {
+		ids = append(ids, id)
+	}
+	sort.Ints(ids)
+	for _, id := range ids {
+		o := d.objs[id]
+		for _, x := range []struct {
+			dir  string
+			done *int32
+			rep  *bool
+		}{{"r", o.doneR, &o.repR}, {"w", o.doneW, &o.repW}} {
+			if x.done == nil || x.done == except || *x.rep || atomic.LoadInt32(x.done) == 0 {
+				continue
+			}
+			*x.rep = true
+			name := "Done"
+			if o.dropped {
+				name = "Deliver"
+			}
+			d.emit(Ev{Ev: name, Obj: id, Kind: o.kind, Fail: "none", Ok: 1, Dir: x.dir})
+		}
+	}
+}
+
 func (d *driver) park(c Cmd) {
 	o := d.objs[c.Obj]
 	if o == nil || !o.ok || o.dropped {
@@ -162,14 +191,20 @@ func (d *driver) park(c Cmd) {
 	if (c.Dir == "r" && o.parkR == nil) || (c.Dir == "w" && o.parkW == nil) {
 		return
 	}
+	d.sweepDone(nil)
 	flag, done := d.startOp(o, c.Dir)
 	if c.Dir == "r" {
-		o.flagR, o.doneR = flag, done
+		o.flagR, o.doneR, o.repR = flag, done, false
 	} else {
-		o.flagW, o.doneW = flag, done
+		o.flagW, o.doneW, o.repW = flag, done, false
 	}
 	if atomic.LoadInt32(done) == 1 {
 		// completed inline: nothing is in flight (the model expected it to park)
+		if c.Dir == "r" {
+			o.repR = true
+		} else {
+			o.repW = true
+		}
 		d.compare(c, 0, 0, 0, 0)
 		return
 	}
@@ -201,7 +236,19 @@ func (d *driver) fire(c Cmd) {
 			}
 		}
 	}
+	d.sweepDone(done)
+	if c.Dir == "r" && o.repR || c.Dir == "w" && o.repW {
+		d.compare(c, 0, 0, 0, 0) // it had completed earlier, unasked
+		return
+	}
 	ok := int(atomic.LoadInt32(done))
+	if ok == 1 {
+		if c.Dir == "r" {
+			o.repR = true
+		} else {
+			o.repW = true
+		}
+	}
 	name := "Done"
 	if o.dropped {
 		name = "Deliver"
@@ -226,7 +273,7 @@ func collectOnce() {
 		c := &sentinel{}
 		runtime.SetFinalizer(c, func(*sentinel) { atomic.StoreInt32(canary, 1) })
 	}()
-	for i := 0; i < 3; i++ {
+	for i := 0; i < 2; i++ {
 		runtime.GC()
 	}
 	deadline := time.Now().Add(20 * time.Second)
@@ -237,8 +284,6 @@ func collectOnce() {
 	if atomic.LoadInt32(canary) == 0 {
 		panic("collect: canary finalizer did not run within 20 s")
 	}
-	runtime.GC()
-	time.Sleep(200 * time.Microsecond)
 }
 
 func (d *driver) drop(c Cmd) {
@@ -254,7 +299,14 @@ func (d *driver) drop(c Cmd) {
 	if flag == nil {
 		return
 	}
+	d.sweepDone(nil)
 	inflight := atomic.LoadInt32(done) == 0
+	if !inflight {
+		// it completed meanwhile (a timer that expired while something else was awaited): nothing to probe
+		o.closer, o.cancel, o.parkR, o.parkW, o.stream = nil, nil, nil, nil, nil
+		o.dropped = true
+		return
+	}
 	// the program drops every reference to the object
 	o.closer, o.cancel = nil, nil
 	o.parkR, o.parkW = nil, nil
